@@ -71,6 +71,8 @@ def lib_attrs(obj):
                 names.append(s)
     out = []
     for n in sorted(names):
+        if n.startswith("_"):
+            continue  # private state is not part of an object's value (and not reachable by the caller catalogue)
         try:
             out.append((n, getattr(obj, n)))
         except AttributeError:
@@ -285,12 +287,52 @@ def rebuild(c):
         return _rebuild_qc(c)
     if t == "obj":
         cls = _resolve(c["c"])
-        o = cls.__new__(cls)
-        for n, v in c["a"]:
-            object.__setattr__(o, n, rebuild(v))
+        attrs = [(n, rebuild(v)) for n, v in c["a"]]
+        o = _default_instance(cls, dict(attrs))
+        for n, v in attrs:
+            object.__setattr__(o, n, v)
         return o
     STATS["unrebuildable"] += 1
     raise Unrebuildable(str(t))
+
+
+def _default_instance(cls, a):
+    """An instance whose PRIVATE state is what the class's own constructor gives a new object (so that
+    a library object rebuilt from its public value is exactly 'that value in a fresh interpreter');
+    its public attributes are overwritten by the caller afterwards."""
+    name = cls.__name__
+    try:
+        if name == "Stabilizer":
+            z = np.zeros((1, 1), dtype=np.int8)
+            return cls((z, z.copy()))
+        if name == "Graph":
+            return cls(1)
+        if name == "StabilizerCircuitInfo":
+            return cls(0, "0:0:0:")
+        if name == "MUBInfo":
+            return cls(0, ["0:0:0"])
+        if name == "ReadoutInfo":
+            return cls(None, 0, None)
+        if name == "StabilizerMeasurementFitter":
+            from qiskit import QuantumCircuit
+            qc = QuantumCircuit(1)
+            qc.metadata = {"readout info": a.get("readout_info")}
+            return cls(a.get("result"), qc, a.get("result_index", 0))
+        if name == "FullStateTomographyFitter":
+            return cls(a.get("result"), a.get("circuits"))
+        if name == "CircuitResult":
+            return cls({}, None)
+        if name == "BinaryResult":
+            return cls(0, 0)
+        if name == "NTuple":
+            return cls([])
+        if name == "Repr":
+            return cls()
+        if name.startswith("LCClass") and name != "LCClassBase":
+            return cls(a.get("type"), a.get("data"))
+    except Exception:
+        pass
+    return cls.__new__(cls)
 
 
 def _hashable(x):
